@@ -123,7 +123,7 @@ class ProgGen:
         if f == 'where':
             nm = r.choice(sorted(env))
             if env[nm] == 'int':
-                pred = "lambda v: len(v) >= %s" % nm
+                pred = r.choice(["lambda v: len(v) >= %s", "lambda v: len(v) - %s", "lambda v: (len(v) + %s) %% 4"]) % nm
                 return ('where', ('re', '[ab]*', False), ('py', pred))
             pred = "lambda v: (v == 'a') == (str(%s)[-3:-2] in ('a', ''))" % nm
             return ('where', TOK, ('py', pred))
